@@ -1,99 +1,8 @@
-import Eav.Model
-import Eav.Gen.Enums
-/-!
-# The translator tie: data extracted from the source tree on this run equals what the model assumes
-
-Every theorem here is closed by kernel evaluation on `Eav/Gen/Enums.lean`, which `tools/extract.py`
-regenerates from /repo's working tree before every build.  If a header, an initialiser, a `case`
-list, `eav_init`, `eav_setup` or the Makefile changes, the corresponding theorem stops checking.
--/
-namespace Eav.Props.GenTie
-open Eav
-
-/-- `enum { EEAV_* }` of include/eav.h: names, order and values -/
-theorem errEnum_eq : Gen.errEnum = (E.names.zip (List.range 37)).map (fun p => (p.1, (p.2 : Int))) := by decide
-
-theorem tldTypeEnum_eq : Gen.tldTypeEnum = (T.names.zip (List.range 11)).map (fun p => (p.1, (p.2 : Int))) := by decide
-
-/-- `EAV_TLD_x = 1 << (TLD_TYPE_x + 1)`: the bit of a class -/
-theorem tldBitEnum_eq : Gen.tldBitEnum =
-    [("EAV_TLD_INVALID", 2), ("EAV_TLD_NOT_ASSIGNED", 4), ("EAV_TLD_COUNTRY_CODE", 8), ("EAV_TLD_GENERIC", 16),
-     ("EAV_TLD_GENERIC_RESTRICTED", 32), ("EAV_TLD_INFRASTRUCTURE", 64), ("EAV_TLD_SPONSORED", 128),
-     ("EAV_TLD_TEST", 256), ("EAV_TLD_SPECIAL", 512), ("EAV_TLD_RETIRED", 1024)] := by decide
-
-theorem rfcEnum_eq : Gen.rfcEnum = [("EAV_RFC_822", 0), ("EAV_RFC_5321", 1), ("EAV_RFC_5322", 2), ("EAV_RFC_6531", 3)] := by decide
-
-theorem limits_eq : Gen.limits = [("DOMAIN_SIZE", Lim.DOMAIN_SIZE), ("LABEL_SIZE", Lim.LABEL_SIZE),
-    ("VALID_HOSTNAME_LEN", Lim.VALID_HOSTNAME_LEN), ("VALID_LABEL_LEN", Lim.VALID_LABEL_LEN),
-    ("VALID_LPART_LEN", Lim.VALID_LPART_LEN)] := by decide
-
-/-- `errors[]`: 36 entries, each carrying the tag of its own index, and the strings `eav_errstr` returns are
-the strings of the initialiser (entry EEAV_IDN_ERROR is served from `idnmsg`) -/
-theorem errors_tags : Gen.errorsSource.map (·.2) = E.names.take 36 := by decide
-theorem errors_runtime : ∀ i, i < 36 → i ≠ 2 → Gen.errorsRuntime[i]? = (Gen.errorsSource.map (·.1))[i]? := by decide
-theorem errors_nonempty : Gen.errorsSource.all (fun p => p.1 != "") = true := by decide
-theorem errors_distinct : (Gen.errorsSource.map (·.1)).Nodup := by decide
-
-theorem reserved_eq : Gen.reservedTable = Eav.reservedTable := by decide
-theorem example_eq : Gen.exampleTable = Eav.exampleTable := by decide
-theorem exampleLabel_eq : Gen.exampleLabel = (Eav.exampleLabel, 8) := by decide
-theorem lenFilter_eq : Gen.specialLenFilters = [(4, 9, 6, 8), (4, 9, 6, 8)] := by decide
-
-/-- the `case` lists returning EEAV_LPART_SPECIAL, per scanner and per build option -/
-theorem specials_eq : Gen.specialsCases =
-    [("src/is_822_local.c", "", specials), ("src/is_5321_local.c", "", specials), ("src/is_5322_local.c", "", specials),
-     ("src/is_6531_local.c", "", specials), ("src/is_6531_local.c", "RFC6531_FOLLOW_RFC20", specials ++ rfc20set),
-     ("src/is_6531_local.c", "RFC6531_FOLLOW_RFC5322", specials)] := by decide
-
-/-- Makefile: all three options default to OFF and `ON` defines the macro of the same name -/
-theorem buildOpts_eq : Gen.buildOpts =
-    [("RFC6531_FOLLOW_RFC5322", "OFF", "ON", "RFC6531_FOLLOW_RFC5322"), ("RFC6531_FOLLOW_RFC20", "OFF", "ON", "RFC6531_FOLLOW_RFC20"),
-     ("LABELS_ALLOW_UNDERSCORE", "OFF", "ON", "LABELS_ALLOW_UNDERSCORE")] := by decide
-
-/-- `eav_init` writes every field of a poisoned `eav_t` … -/
-theorem init_sets_all : Gen.initFieldsSet.all (·.2) = true := by decide
-theorem init_fields : Gen.initFieldsSet.map (·.1) =
-    ["rfc", "allow_tld", "tld_check", "utf8", "errcode", "idnmsg", "initialized", "utf8_cb", "ascii_cb", "result"] := by decide
-
-/-- … with the values of the model's `eavInit` -/
-theorem init_values : Gen.initValues =
-    (match (eavInit {}).obj with
-     | some e => [("rfc", e.rfc), ("allow_tld", (e.allowTld : Int)), ("tld_check", if e.tldCheck then 1 else 0),
-                  ("utf8", if e.utf8 then 1 else 0), ("errcode", (e.errcode : Int)),
-                  ("idnmsg_null", if e.idnmsg.isNone then 1 else 0), ("initialized", if e.initialized then 1 else 0),
-                  ("utf8_cb_null", if e.utf8Cb then 0 else 1), ("ascii_cb_null", if e.asciiCb.isNone then 1 else 0),
-                  ("result_null", if e.result.isNone then 1 else 0)]
-     | none => []) := by decide
-
-/-- what the model's `eav_setup` does for a raw `rfc` value, in the vocabulary of the dump -/
-def setupRow (rfc : Int) : Int × Int × Int × String × String × Int :=
-  match (eavInit {}).obj with
-  | none => (rfc, -1, 0, "", "", 0)
-  | some e0 =>
-    match eavSetup .idn2 { obj := some { e0 with rfc := rfc } } with
-    | .ok (st, rc) =>
-      (match st.obj with
-       | some e => (rfc, rc, if e.utf8 then 1 else 0,
-                    match e.asciiCb with
-                    | some .m822 => "is_822_email" | some .m5321 => "is_5321_email" | some .m5322 => "is_5322_email"
-                    | some .m6531 => "other" | none => "unchanged",
-                    if e.utf8Cb then "is_6531_email" else "unchanged", (e.errcode : Int))
-       | none => (rfc, -1, 0, "", "", 0))
-    | .error _ => (rfc, -1, 0, "", "", 0)
-
-/-- `eav_setup` of the compiled library selects, for each mode and for invalid values, what the model says -/
-theorem setup_eq : Gen.setupTable = [0, 1, 2, 3, -1, 4, 7, 1000].map setupRow := by decide
-
-/-- no object with static storage lives in a writable section -/
-theorem no_mutable_globals : Gen.mutableGlobals = [] := by decide
-
-/-- external symbols the library may call; none of them keeps hidden state across calls
-(`strtok`, `setlocale`, `localeconv`, `rand`, `getenv`, `strerror` … are absent) -/
-def mtSafe : List String := ["_GLOBAL_OFFSET_TABLE_", "__assert_fail", "__ctype_b_loc", "__stack_chk_fail", "abort", "free", "malloc",
-  "calloc", "memchr", "memcpy", "memcmp", "strchr", "strlen", "strncasecmp", "strrchr", "strspn", "strndup", "strnlen",
-  "idn2_strerror", "idn2_to_ascii_8z", "idn2_lookup_ul", "idn2_free",
-  "idna_strerror", "idna_to_ascii_lz",
-  "idn_res_encodename", "idn_resconf_create", "idn_resconf_destroy", "idn_resconf_initialize", "idn_result_tostring"]
-theorem externals_mt_safe : Gen.externals.all (fun s => mtSafe.contains s) = true := by decide
-
-end Eav.Props.GenTie
+import Eav.Props.Tie.Enums
+import Eav.Props.Tie.Errors
+import Eav.Props.Tie.Special
+import Eav.Props.Tie.Scanners
+import Eav.Props.Tie.Build
+import Eav.Props.Tie.Init
+import Eav.Props.Tie.Globals
+/-! Umbrella: the translator-tie theorems live in `Eav/Props/Tie/*.lean`, one module per topic. -/
